@@ -254,6 +254,35 @@ def cube_dims(case):
     return [dense_to_index(a, c) for a, c in zip(case["dense"], case["commons"])]
 
 
+def lopsided_cube_case(rng, n=None, frequent_explicit=True):
+    """Two or three 1-D dimensions over a few hundred to a few thousand rows in which one category is very
+    frequent and the others sit on short RUNS of adjacent rows; the runs of different dimensions start and end
+    one row apart from each other, so that a short row list and a long one (the frequent category, once it is
+    stored explicitly) interleave in every way: hit after miss, miss after hit, first/last element, runs at the
+    very start and the very end of the rows.  commons: a rare category when frequent_explicit (so the cube walks
+    long lists against short ones), else the frequent one."""
+    if n is None:
+        n = int(pick(rng, [200, 700, 3000]))
+    ndims = int(rng.integers(2, 4))
+    dense, commons, extents = [], [], []
+    starts = sorted(int(x) for x in rng.choice(max(1, n - 8), size=min(max(1, n - 8), int(rng.integers(3, 9))), replace=False))
+    starts += [0, n - 4] if rng.random() < 0.5 else []
+    for d in range(ndims):
+        ext = int(rng.integers(3, 6))
+        a = numpy.zeros(n, dtype=numpy.int64)
+        for s0 in starts:
+            if rng.random() < 0.25:
+                continue
+            s1 = s0 + int(rng.integers(-1, 2))            # one row before / same / one row after
+            ln = int(rng.integers(1, 5))
+            lo, hi = max(0, s1), min(n, max(0, s1) + ln)
+            a[lo:hi] = int(rng.integers(1, ext))
+        dense.append(a)
+        commons.append(int(rng.integers(1, ext)) if frequent_explicit and rng.random() < 0.85 else 0)
+        extents.append(ext)
+    return {"dense": dense, "commons": commons, "shape": None, "extents": extents}
+
+
 def inferred_shape(case):
     """Shape the index cube is expected to infer: max(values present u {common}) + 1."""
     out = []
